@@ -139,11 +139,17 @@ def oracle(c):
             return (dict(sig, clause="scale"), "rescaling the weight array by 3.7 changes (alpha, beta): %r -> %r" % ((a, b), (a2, b2)))
     # result does not depend on the order of the data (array weights travel with their observation)
     if c["delta"] is not None and (c["weights"] != "array" or len(set(c["x"])) == len(c["x"])):
-        perm = np.argsort(np.sin(np.arange(len(x)) * 7.77 + 0.3), kind="stable")
-        warr = np.array(c["warr"])[perm] if c["weights"] == "array" else None
-        a3, b3, _ = fit(c, x=x[perm], warr=warr)
-        if not (math.isclose(a, a3, rel_tol=1e-9) and math.isclose(b, b3, rel_tol=1e-9)):
-            return (dict(sig, clause="order"), "permuting the observations changes (alpha, beta): %r -> %r" % ((a, b), (a3, b3)))
+        asc = np.argsort(x, kind="stable")
+        for oname, perm in (("shuffled", np.argsort(np.sin(np.arange(len(x)) * 7.77 + 0.3), kind="stable")),
+                            ("ascending", asc), ("descending", asc[::-1])):    # already sorted input, either way, is an order too
+            warr = np.array(c["warr"])[perm] if c["weights"] == "array" else None
+            try:
+                a3, b3, _ = fit(c, x=x[perm], warr=warr)
+            except Exception as e:  # noqa
+                return (dict(sig, clause="order", order=oname), "the same observations in %s order: fit raised %s: %s" % (oname, type(e).__name__, str(e)[:100]))
+            if not (math.isclose(a, a3, rel_tol=1e-9) and math.isclose(b, b3, rel_tol=1e-9)):
+                return (dict(sig, clause="order", order=oname),
+                        "the same observations in %s order change (alpha, beta): %r -> %r" % (oname, (a, b), (a3, b3)))
     # free delta: local minimiser of the weighted x-space error
     if c["delta"] is None:
         from virocon import ExponentiatedWeibullDistribution as EW
